@@ -8,6 +8,7 @@ pub mod chainmisc;
 pub mod envelope;
 pub mod inscriptions;
 pub mod pure_ordinals;
+pub mod reorg;
 pub mod runes;
 pub mod runestone;
 pub mod sats;
@@ -29,6 +30,7 @@ pub fn dispatch(id: &str) -> Option<fn(&mut Session) -> Meta> {
     "C10" => runes::c10,
     "C11" => runes::c11,
     "C12" => sats::c12,
+    "C14" => reorg::c14,
     "C15" => chainmisc::c15,
     "C16" => chainmisc::c16,
     "C17" => sats::c17,
